@@ -29,9 +29,9 @@ func (c *Ctx) Bounds() engine.Bounds {
 
 // OpFilter selects which findings/obligations of an operation-engine run belong to a property.
 type OpFilter struct {
-	Methods []string                                  // public operations to instantiate ("" = all)
-	Keep    func(rule, construct string) bool         // which obligations count for this property
-	KeepF   func(f engine.Finding) bool               // optional finer filter on findings
+	Methods []string                          // public operations to instantiate ("" = all)
+	Keep    func(rule, construct string) bool // which obligations count for this property
+	KeepF   func(f engine.Finding) bool       // optional finer filter on findings
 }
 
 func hasPrefixAny(s string, ps ...string) bool {
